@@ -1,5 +1,3 @@
-use std::cmp::min;
-
 use lazy_static::lazy_static;
 
 use crate::cli;
@@ -138,7 +136,15 @@ impl StateMachine<'_> {
                     .output_buffer
                     .push_str(&tabs::expand(&self.line, &self.config.tab_cfg));
                 self.painter.output_buffer.push('\n');
-                State::HunkZero(Unified, None)
+                // (still the same kind of hunk: the lines of a combined diff keep their prefixes)
+                let diff_type = match &self.state {
+                    HunkHeader(diff_type, _, _, _)
+                    | HunkZero(diff_type, _)
+                    | HunkMinus(diff_type, _)
+                    | HunkPlus(diff_type, _) => diff_type.clone(),
+                    _ => Unified,
+                };
+                State::HunkZero(diff_type, None)
             }
         };
         self.painter.emit()?;
@@ -221,7 +227,12 @@ fn new_line_state(
         Combined(Number(n_parents), in_merge_conflict) => {
             // The prefix of a combined diff line consists of ASCII characters; if the line
             // does not have one (the cut would fall inside a character) it is not a hunk line.
-            let prefix = new_line.get(..min(n_parents, new_line.len()))?;
+            // (nor is a line that is too short to have one, e.g. the empty line that separates
+            // one commit from the next: with an empty prefix every later line would "have" it)
+            if new_line.len() < n_parents {
+                return None;
+            }
+            let prefix = new_line.get(..n_parents)?;
             // (A prefix consists of '-', '+' and ' ' only: "C++ rocks" is not an added line.)
             let prefix_char = if prefix.chars().any(|c| !matches!(c, '-' | '+' | ' ')) {
                 None
